@@ -3,7 +3,8 @@
 #include "h4v_err.h"
 
 /* allocator stub (malloc/calloc are callees outside the unit): allocation succeeds unless the
-   harness switches fault injection on (g_alloc_may_fail), then each call may return NULL.
+   harness switches fault injection on (g_alloc_fail_at = k: the k-th allocation returns NULL; a
+   constant, so that pointers stay concrete for cbmc).
    Under cbmc the three object kinds of mcache.c are allocated with their struct type (same
    size, no padding added): an untyped malloc(sizeof(BKT) + pagesize) is a byte array to cbmc and
    every queue pointer stored in it is lost to its points-to analysis (no answer in 5 min). */
@@ -17,16 +18,14 @@ struct h4v_bktpage {
     BKT   b;
     uint8 page[PGSZ];
 };
-static int g_alloc_may_fail;
+static int g_alloc_fail_at; /* fault injection: the allocation with this ordinal fails (-1: none) */
+static int g_alloc_n;
 static void *
 h4v_malloc(size_t n)
 {
     void *p;
-    if (g_alloc_may_fail) {
-        H4V_ND(int, alloc_fails);
-        if (alloc_fails)
-            return NULL;
-    }
+    if (g_alloc_fail_at >= 0 && g_alloc_n++ == g_alloc_fail_at)
+        return NULL;
 #ifdef H4V_CBMC
     __CPROVER_assert(sizeof(struct h4v_bktpage) == sizeof(BKT) + PGSZ, "typed bucket+page object has exactly the requested size");
     /* __CPROVER_allocate never yields NULL: pointers stay plain addresses for cbmc's constant
@@ -48,11 +47,8 @@ static void *
 h4v_calloc(size_t a, size_t b)
 {
     void *p;
-    if (g_alloc_may_fail) {
-        H4V_ND(int, alloc_fails);
-        if (alloc_fails)
-            return NULL;
-    }
+    if (g_alloc_fail_at >= 0 && g_alloc_n++ == g_alloc_fail_at)
+        return NULL;
 #ifdef H4V_CBMC
     if (a == 1 && b == sizeof(MCACHE))
         p = __CPROVER_allocate(sizeof(MCACHE), 1);
@@ -149,17 +145,14 @@ mk_cache(void)
 {
     H4V_ND(int32, maxcache);
     H4V_ND(int32, npages);
-#ifdef EXACT /* one run per (cache size, page count): keeps the heap small */
+    /* one run per (cache size, page count): constants keep the heap concrete */
     H4V_ASSUME(maxcache == MAXCACHE && npages == NPG);
     maxcache = MAXCACHE;
     npages   = NPG;
-#else
-    H4V_ASSUME(maxcache >= 1 && maxcache <= MAXCACHE);
-    H4V_ASSUME(npages >= 1 && npages <= NPG);
-#endif
     g_npages   = npages;
     g_fail_out = 0;
-    g_alloc_may_fail = 0;
+    g_alloc_fail_at = -1;
+    g_alloc_n       = 0;
     for (int p = 0; p <= NPG; p++) {
         H4V_ND(h4v_u8, disk0);
         H4V_ND(h4v_u8, disk1);
@@ -238,20 +231,15 @@ check_page(MCACHE *mp, int32 q)
 static void
 check_all_pages(MCACHE *mp)
 {
-    check_page(mp, 1);
-    if (g_npages >= 2)
-        check_page(mp, 2);
-    if (g_npages >= 3)
-        check_page(mp, 3);
+    for (int32 q = 1; q <= NPG; q++)
+        check_page(mp, q);
 }
 
 /* one application step on page p: get it if not held; then keep it, put it back clean, or modify
    it and put it back dirty */
 static void
-app_step_on(MCACHE *mp, int32 p)
+app_step_on(MCACHE *mp, int32 p, int op_kind)
 {
-    H4V_ND(int, op_kind);
-    H4V_ASSUME(op_kind >= 0 && op_kind <= 2);
     if (g_hold[p] == NULL) {
         int    was_cached = count_bkt(mp, p);
         int    in_before  = g_in_cnt[p];
@@ -292,75 +280,69 @@ app_step_on(MCACHE *mp, int32 p)
     check_all_pages(mp);
 }
 
-/* the page number is a constant in each branch (hash keys become constants for cbmc) */
-static void
-app_step(MCACHE *mp)
-{
-    H4V_ND(int32, p);
-    H4V_ASSUME(p >= 1 && p <= g_npages);
-    if (p == 1)
-        app_step_on(mp, 1);
-    else if (p == 2)
-        app_step_on(mp, 2);
-    else if (p == 3)
-        app_step_on(mp, 3);
-    else
-        app_step_on(mp, p);
-}
-
+/* Every schedule of NSTEPS operations (page 1..NPG x {get and hold, put clean, modify and put
+   dirty}) is run on a fresh cache, one after the other.  Page numbers and operation kinds are
+   constants in each unwound iteration, so the heap stays concrete for cbmc (a symbolic
+   schedule merges queue pointers at every step: no answer in 5 min even for 2 pages); the page
+   contents stay symbolic. */
+#define NOPS (3 * NPG)
+#ifndef SCHED_LO /* the schedules SCHED_LO <= sched < SCHED_HI of the NOPS^NSTEPS are run by one obligation */
+#define SCHED_LO 0
+#define SCHED_HI (NOPS * NOPS * NOPS)
+#endif
 void
 h_mcache_protocol(void)
 {
-    MCACHE *mp = mk_cache();
-    int32   maxc = mp->maxcache;
-    for (int p = 0; p <= NPG; p++)
-        g_hold[p] = NULL;
-    for (int s = 0; s < NSTEPS; s++)
-        app_step(mp);
-    H4V_COVER(g_out_cnt[1] > 0, "a dirty page was evicted and written back");
-    H4V_COVER(g_in_cnt[1] > 1, "a page was read in twice");
-    H4V_COVER(mp->curcache > maxc, "cache grew because every page was pinned");
-    /* release what is still held, then sync */
-    for (int p = 1; p <= NPG; p++)
-        if (p <= g_npages && g_hold[p] != NULL) {
-            mcache_put(mp, g_hold[p], 0);
+    int evicted_dirty = 0, reread = 0, grew = 0, synced = 0;
+    for (int sched = SCHED_LO; sched < SCHED_HI; sched++) {
+        MCACHE *mp   = mk_cache();
+        int32   maxc = mp->maxcache;
+        int     code = sched;
+        for (int p = 0; p <= NPG; p++)
             g_hold[p] = NULL;
+        for (int s = 0; s < NSTEPS; s++) {
+            int op = code % NOPS;
+            code /= NOPS;
+            app_step_on(mp, op / 3 + 1, op % 3);
         }
-    int was_dirty[NPG + 1], out_before[NPG + 1], any_dirty = 0;
-    for (int p = 1; p <= NPG; p++) {
-        was_dirty[p]  = g_dirty[p];
-        out_before[p] = g_out_cnt[p];
-        any_dirty |= (p <= g_npages && g_dirty[p]);
-    }
-    int r = mcache_sync(mp);
-    H4V_CHECK(r == RET_SUCCESS, "mcache_sync succeeds when pgout succeeds");
-    H4V_CHECK(count_dirty_bkt(mp) == 0, "mcache_sync leaves no dirty page");
-    for (int p = 1; p <= NPG; p++)
-        if (p <= g_npages) {
+        evicted_dirty |= (g_out_cnt[1] > 0);
+        reread |= (g_in_cnt[1] > 1);
+        grew |= (mp->curcache > maxc);
+        /* release what is still held, then sync */
+        for (int p = 1; p <= NPG; p++)
+            if (g_hold[p] != NULL) {
+                mcache_put(mp, g_hold[p], 0);
+                g_hold[p] = NULL;
+            }
+        int was_dirty[NPG + 1], out_before[NPG + 1];
+        for (int p = 1; p <= NPG; p++) {
+            was_dirty[p]  = g_dirty[p];
+            out_before[p] = g_out_cnt[p];
+            synced |= g_dirty[p];
+        }
+        int r = mcache_sync(mp);
+        H4V_CHECK(r == RET_SUCCESS, "mcache_sync succeeds when pgout succeeds");
+        H4V_CHECK(count_dirty_bkt(mp) == 0, "mcache_sync leaves no dirty page");
+        for (int p = 1; p <= NPG; p++) {
             H4V_CHECK(g_dirty[p] == 0, "every page put dirty has been written back");
             H4V_CHECK(g_out_cnt[p] == out_before[p] + (was_dirty[p] ? 1 : 0),
                       "mcache_sync writes each dirty page exactly once, clean pages not at all");
             H4V_CHECK(g_disk[p][0] == g_model[p][0] && g_disk[p][PGSZ - 1] == g_model[p][PGSZ - 1],
                       "after sync the disk holds the data last stored");
         }
-    check_all_pages(mp);
-    H4V_COVER(any_dirty, "sync wrote a page");
+        check_all_pages(mp);
+#ifdef WITH_CLOSE /* mcache_close frees everything exactly once (cbmc: no double free; native: ASan) */
+        r = mcache_close(mp);
+        H4V_CHECK(r == RET_SUCCESS, "mcache_close succeeds");
+#endif
+    }
+#ifdef COVER_ALL /* defined for a range of schedules known to contain all four situations */
+    H4V_COVER(evicted_dirty, "a dirty page was evicted and written back");
+    H4V_COVER(reread, "a page was read in twice");
+    H4V_COVER(grew, "cache grew because every page was pinned");
+#endif
+    H4V_COVER(synced, "sync wrote a page");
     H4V_CANARY("mcache protocol end");
-}
-
-/* mcache_close frees everything exactly once (cbmc: no double free, no use after free; the
-   native replay runs under ASan) */
-void
-h_mcache_close(void)
-{
-    MCACHE *mp = mk_cache();
-    for (int p = 0; p <= NPG; p++)
-        g_hold[p] = NULL;
-    for (int s = 0; s < 2; s++)
-        app_step(mp);
-    int r = mcache_close(mp);
-    H4V_CHECK(r == RET_SUCCESS, "mcache_close succeeds");
-    H4V_CANARY("mcache close end");
 }
 
 /* fault path: the write-back of a dirty page fails during eviction.  mcache_get must report the
@@ -370,7 +352,9 @@ void
 h_mcache_evict_fail(void)
 {
     MCACHE *mp = mk_cache();
-    H4V_ASSUME(mp->maxcache == 1 && g_npages >= 2);
+    for (int p = 0; p <= NPG; p++)
+        g_hold[p] = NULL;
+    H4V_ASSUME(mp->maxcache == 1 && g_npages >= 2); /* MAXCACHE=1, NPG>=2 by defines */
     uint8 *pg = mcache_get(mp, 1, 0);
     H4V_ASSUME(pg != NULL);
     H4V_ND(h4v_u8, v0);
@@ -380,30 +364,27 @@ h_mcache_evict_fail(void)
     g_fail_out = 1;
     uint8 *pg2 = mcache_get(mp, 2, 0);
     H4V_CHECK(pg2 == NULL, "mcache_get fails when the dirty page it wants to evict cannot be written");
-    H4V_CHECK(count_bkt(mp, 1) == 1, "the unwritten dirty page is still cached");
-    check_all_pages(mp);
+    /* the cache must still be a well-formed structure holding the unwritten data */
     int r = mcache_sync(mp);
     H4V_CHECK(r == RET_SUCCESS && g_disk[1][0] == g_model[1][0], "a later sync writes the data");
+    H4V_CHECK(count_bkt(mp, 1) == 1, "the page is still cached");
+    check_all_pages(mp);
     mcache_close(mp);
     H4V_CANARY("mcache evict fail end");
 }
 
-/* allocation failure inside mcache_open: must return NULL and be memory safe */
+/* allocation failure inside mcache_open (the FAIL_AT-th allocation fails: 0 = the MCACHE itself,
+   k = the k-th list element): must return NULL and be memory safe */
+#ifndef FAIL_AT
+#define FAIL_AT 0
+#endif
 void
 h_mcache_open_oom(void)
 {
-    H4V_ND(int32, maxcache);
-    H4V_ND(int32, npages);
-    H4V_ASSUME(maxcache >= 1 && maxcache <= MAXCACHE);
-    H4V_ASSUME(npages >= 1 && npages <= NPG);
-    g_alloc_may_fail = 1;
-    MCACHE *mp       = mcache_open(NULL, 7, PGSZ, maxcache, npages, 0);
-    g_alloc_may_fail = 0;
-    H4V_COVER(mp == NULL, "mcache_open failed");
-    H4V_COVER(mp != NULL, "mcache_open succeeded");
-    if (mp != NULL) {
-        H4V_CHECK(mp->npages == npages && mp->maxcache == maxcache && mp->curcache == 0, "fresh cache is empty");
-        mcache_close(mp);
-    }
+    g_alloc_fail_at = FAIL_AT;
+    g_alloc_n       = 0;
+    MCACHE *mp      = mcache_open(NULL, 7, PGSZ, MAXCACHE, NPG, 0);
+    g_alloc_fail_at = -1;
+    H4V_CHECK(mp == NULL, "mcache_open reports the allocation failure");
     H4V_CANARY("mcache open oom end");
 }
